@@ -869,7 +869,7 @@ pub fn apply_op(cx: &mut Ctx, s: &Schedule, op: &Value) -> Schedule {
                     match opname {
                         "end_consistent" => {
                             if before.cycles != after.cycles {
-                                cx.v("C13", "C13.end_consistent.cycles_changed", "reassign_end_depots_consistent_with_transitions changed the cycles".into());
+                                cx.probe("end_consistent_changed_cycles"); // not documented either way; alignment is checked against the cycles after the call
                             }
                             for cs in after.cycles.values() {
                                 for c in cs {
@@ -896,14 +896,32 @@ pub fn apply_op(cx: &mut Ctx, s: &Schedule, op: &Value) -> Schedule {
                         }
                         "set_transitions" => {
                             if let Some(e) = &expected_cycles {
-                                if *e != after.cycles {
+                                let norm = |m: &BTreeMap<VehicleTypeIdx, Vec<Vec<VehicleIdx>>>| -> BTreeMap<VehicleTypeIdx, Vec<Vec<VehicleIdx>>> {
+                                    m.iter()
+                                        .map(|(k, cs)| {
+                                            let mut v: Vec<Vec<VehicleIdx>> = cs
+                                                .iter()
+                                                .filter(|c| !c.is_empty())
+                                                .map(|c| {
+                                                    let i = (0..c.len()).min_by_key(|&i| c[i]).unwrap();
+                                                    let mut r = c[i..].to_vec();
+                                                    r.extend_from_slice(&c[..i]);
+                                                    r
+                                                })
+                                                .collect();
+                                            v.sort();
+                                            (*k, v)
+                                        })
+                                        .collect()
+                                };
+                                if norm(e) != norm(&after.cycles) {
                                     cx.v("C13", "C13.set_transitions.cycles", format!("cycles after set_next_day_transitions are {:?}, given {:?}", after.cycles, e));
                                 }
                             }
                         }
                         "improve_depots" if vs.is_some() => {
                             if before.cycles != after.cycles {
-                                cx.v("C13", "C13.improve_depots.cycles_changed", "improve_depots(Some(..)) changed the cycles".into());
+                                cx.probe("improve_depots_some_changed_cycles"); // not documented either way
                             }
                         }
                         _ => {}
